@@ -1,9 +1,39 @@
 // constgen: the constants translator.  Parses the Go sources of the repository
-// (go/parser, go/ast, go/constant; nothing is executed) and regenerates
-//   <out>/coq/Gen/*.v          plain Gallina definitions (Z, list Z, ...)
-//   <out>/_build/tables/*.txt  the same data for the OCaml driver
+// (go/parser, go/ast, go/constant, go/build; nothing is executed) and regenerates
+//
+//	<out>/coq/Gen/*.v          plain Gallina definitions (Z, list Z, ...)
+//	<out>/_build/tables/*.txt  the same data for the OCaml driver
+//
 // Files are rewritten only when their content changes so that make rebuilds
-// exactly the dependants.
+// exactly the dependants; nothing is written unless every check below passes.
+//
+// constgen reads INITIALISERS.  They are what the program uses at run time only
+// under conditions that constgen checks itself, failing closed (exit 2, message
+// naming the construct) -- see tools/constgen/selftest.sh for one seeded change
+// per rule:
+//
+//	files.go  the file set is the one go/build selects for linux/amd64 without
+//	          tags; a name that is read must not have another definition under
+//	          other build constraints; no duplicate package-level names; no
+//	          //go:linkname; no non-Go sources in the packages read.
+//	main.go   identifiers inside evaluated expressions must be CONSTANTS (exact
+//	          arithmetic, overflow rejected by the compiler); conversions are the
+//	          predeclared integer types only; table literals have no keyed
+//	          elements; Q/Zero/One/MinusOne must be exactly
+//	          new(big.Int).SetString(s, base) / big.NewInt(n); string bases are
+//	          read from the call, never assumed.
+//	pin.go    the init functions that convert the literal tables (poseidon,
+//	          goldenposeidon) and utils.NewIntFromString are accepted only in
+//	          the shape the model was written against; the ff/ffg inits are
+//	          pinned with their literals abstracted, and every literal is read.
+//	curve.go  babyjub's init() is interpreted statement by statement.
+//	scan.go   read-only discipline: no write, mutating method call, escaping
+//	          address or alias of a tracked table/object anywhere in the
+//	          repository outside its initialiser or pinned init (local aliases
+//	          are followed inside their function).  Not covered: writes by a
+//	          callee through a pointer it was legitimately given (tools/effgen).
+//
+// `constgen -pins <repo>` prints the shape hashes for pin.go.
 package main
 
 import (
@@ -11,7 +41,6 @@ import (
 	"fmt"
 	"go/ast"
 	"go/constant"
-	"go/parser"
 	"go/token"
 	"math/big"
 	"os"
@@ -24,68 +53,11 @@ import (
 var repo, out string
 var fset = token.NewFileSet()
 
-type pkgInfo struct {
-	files map[string]*ast.File
-	vars  map[string]ast.Expr // package-level var/const name -> initialiser
-	funcs map[string]*ast.FuncDecl
-}
-
 func must(err error) {
 	if err != nil {
 		fmt.Fprintln(os.Stderr, "constgen:", err)
 		os.Exit(2)
 	}
-}
-
-func loadPkg(dir string) *pkgInfo {
-	pi := &pkgInfo{files: map[string]*ast.File{}, vars: map[string]ast.Expr{}, funcs: map[string]*ast.FuncDecl{}}
-	ents, err := os.ReadDir(filepath.Join(repo, dir))
-	must(err)
-	for _, e := range ents {
-		n := e.Name()
-		if !strings.HasSuffix(n, ".go") || strings.HasSuffix(n, "_test.go") || strings.HasPrefix(n, "verif_") {
-			continue
-		}
-		f, err := parser.ParseFile(fset, filepath.Join(repo, dir, n), nil, parser.ParseComments)
-		must(err)
-		pi.files[n] = f
-		for _, d := range f.Decls {
-			switch dd := d.(type) {
-			case *ast.GenDecl:
-				for _, sp := range dd.Specs {
-					if vs, ok := sp.(*ast.ValueSpec); ok {
-						for i, nm := range vs.Names {
-							if i < len(vs.Values) {
-								pi.vars[nm.Name] = vs.Values[i]
-							} else if len(vs.Values) == 1 {
-								pi.vars[nm.Name] = vs.Values[0]
-							}
-						}
-					}
-				}
-			case *ast.FuncDecl:
-				name := dd.Name.Name
-				if dd.Recv != nil && len(dd.Recv.List) == 1 {
-					name = recvName(dd.Recv.List[0].Type) + "." + name
-				}
-				// several init functions: keep them all under init#k
-				if name == "init" {
-					k := 0
-					for {
-						if _, ok := pi.funcs[fmt.Sprintf("init#%d", k)]; !ok {
-							break
-						}
-						k++
-					}
-					name = fmt.Sprintf("init#%d", k)
-				}
-				if _, dup := pi.funcs[name]; !dup {
-					pi.funcs[name] = dd
-				}
-			}
-		}
-	}
-	return pi
 }
 
 func recvName(e ast.Expr) string {
@@ -98,8 +70,49 @@ func recvName(e ast.Expr) string {
 	return "?"
 }
 
+// env: what an identifier inside an evaluated expression may denote.  Only
+// CONSTANTS are evaluated (the Go compiler then guarantees exact arithmetic and
+// rejects overflow); a variable can be reassigned and wraps around.
+type env struct {
+	consts   map[string]ast.Expr // constant name -> its expression
+	declared map[string]bool     // every other name in scope that constgen knows of
+	pi       *pkgInfo
+}
+
+func (pi *pkgInfo) env() *env {
+	en := &env{consts: map[string]ast.Expr{}, declared: map[string]bool{}, pi: pi}
+	for n := range pi.declared {
+		en.declared[n] = true
+	}
+	for n := range pi.consts {
+		if ex, ok := pi.vars[n]; ok {
+			en.consts[n] = ex
+		}
+	}
+	return en
+}
+
+func (en *env) lookup(id *ast.Ident) (ast.Expr, bool) {
+	if en == nil {
+		return nil, false
+	}
+	if ex, ok := en.consts[id.Name]; ok {
+		if en.pi.consts[id.Name] && en.pi.vars[id.Name] == ex {
+			en.pi.noAlt(id.Name)
+		}
+		return ex, true
+	}
+	if en.declared[id.Name] {
+		must(fmt.Errorf("%s: %s is not a constant with an explicit value: constgen evaluates constants only", fset.Position(id.Pos()), id.Name))
+	}
+	return nil, false
+}
+
+var intTypes = map[string]bool{"int": true, "int8": true, "int16": true, "int32": true, "int64": true,
+	"uint": true, "uint8": true, "uint16": true, "uint32": true, "uint64": true, "uintptr": true, "byte": true, "rune": true}
+
 // evalInt evaluates an integer constant expression (literals, unary/binary ops, parens, conversions)
-func evalInt(e ast.Expr, env map[string]ast.Expr) (*big.Int, bool) {
+func evalInt(e ast.Expr, env *env) (*big.Int, bool) {
 	switch t := e.(type) {
 	case *ast.BasicLit:
 		if t.Kind == token.INT || t.Kind == token.CHAR {
@@ -144,14 +157,12 @@ func evalInt(e ast.Expr, env map[string]ast.Expr) (*big.Int, bool) {
 			}
 		}
 	case *ast.Ident:
-		if env != nil {
-			if ex, ok := env[t.Name]; ok {
-				return evalInt(ex, env)
-			}
+		if ex, ok := env.lookup(t); ok {
+			return evalInt(ex, env)
 		}
-	case *ast.CallExpr: // uint64(x) style conversions
+	case *ast.CallExpr: // uint64(x) style conversions: the predeclared integer types only
 		if len(t.Args) == 1 {
-			if id, ok := t.Fun.(*ast.Ident); ok && (strings.HasPrefix(id.Name, "uint") || strings.HasPrefix(id.Name, "int")) {
+			if id, ok := t.Fun.(*ast.Ident); ok && intTypes[id.Name] && id.Obj == nil && (env == nil || !env.declared[id.Name]) {
 				return evalInt(t.Args[0], env)
 			}
 		}
@@ -159,7 +170,7 @@ func evalInt(e ast.Expr, env map[string]ast.Expr) (*big.Int, bool) {
 	return nil, false
 }
 
-func evalString(e ast.Expr, env map[string]ast.Expr) (string, bool) {
+func evalString(e ast.Expr, env *env) (string, bool) {
 	switch t := e.(type) {
 	case *ast.BasicLit:
 		if t.Kind == token.STRING {
@@ -169,10 +180,8 @@ func evalString(e ast.Expr, env map[string]ast.Expr) (string, bool) {
 			}
 		}
 	case *ast.Ident:
-		if env != nil {
-			if ex, ok := env[t.Name]; ok {
-				return evalString(ex, env)
-			}
+		if ex, ok := env.lookup(t); ok {
+			return evalString(ex, env)
 		}
 	case *ast.BinaryExpr:
 		if t.Op == token.ADD {
@@ -192,13 +201,13 @@ type tree struct {
 	kids []*tree
 }
 
-func buildTree(e ast.Expr, base int, env map[string]ast.Expr) *tree {
+func buildTree(e ast.Expr, base int, env *env) *tree {
 	switch t := e.(type) {
 	case *ast.CompositeLit:
 		tr := &tree{}
 		for _, el := range t.Elts {
-			if kv, ok := el.(*ast.KeyValueExpr); ok {
-				el = kv.Value
+			if _, ok := el.(*ast.KeyValueExpr); ok {
+				must(fmt.Errorf("%s: keyed element in a table literal: positions given by keys are not supported", fset.Position(el.Pos())))
 			}
 			tr.kids = append(tr.kids, buildTree(el, base, env))
 		}
@@ -280,7 +289,25 @@ func listTree(vs []*big.Int) *tree {
 	return t
 }
 
+// outputs are buffered and written only when every check has passed
+type pendingFile struct {
+	path    string
+	content []byte
+}
+
+var pending []pendingFile
+
 func writeIfChanged(path string, content []byte) {
+	pending = append(pending, pendingFile{path, content})
+}
+
+func flush() {
+	for _, p := range pending {
+		writeNow(p.path, p.content)
+	}
+}
+
+func writeNow(path string, content []byte) {
 	old, err := os.ReadFile(path)
 	if err == nil && bytes.Equal(old, content) {
 		return
@@ -338,29 +365,48 @@ func funcLits(fd *ast.FuncDecl) []*big.Int {
 	return res
 }
 
-// find, inside function fd, the composite literal assigned/declared to variable `name`
+// localComposite: the initial value of the local variable `name` of fd: the
+// variable must be DEFINED (var / :=) exactly once in the function, so that no
+// inner scope shadows it; later plain assignments are part of the algorithm
+// (translated by limbgen), not of the constant.
 func localComposite(fd *ast.FuncDecl, name string) ast.Expr {
 	var found ast.Expr
+	ndef := 0
 	if fd == nil {
 		return nil
 	}
-	ast.Inspect(fd.Body, func(n ast.Node) bool {
+	ast.Inspect(fd, func(n ast.Node) bool {
 		switch s := n.(type) {
 		case *ast.AssignStmt:
 			for i, l := range s.Lhs {
-				if id, ok := l.(*ast.Ident); ok && id.Name == name && i < len(s.Rhs) && found == nil {
-					found = s.Rhs[i]
+				if id, ok := l.(*ast.Ident); ok && id.Name == name && s.Tok == token.DEFINE {
+					ndef++
+					if i < len(s.Rhs) && len(s.Lhs) == len(s.Rhs) {
+						found = s.Rhs[i]
+					}
 				}
 			}
 		case *ast.ValueSpec:
 			for i, nm := range s.Names {
-				if nm.Name == name && i < len(s.Values) && found == nil {
-					found = s.Values[i]
+				if nm.Name == name {
+					ndef++
+					if i < len(s.Values) {
+						found = s.Values[i]
+					}
+				}
+			}
+		case *ast.Field:
+			for _, nm := range s.Names {
+				if nm.Name == name {
+					ndef += 2
 				}
 			}
 		}
 		return true
 	})
+	if ndef > 1 {
+		must(fmt.Errorf("%s: local %s is declared more than once in %s: which one a use denotes is not analysed", fset.Position(fd.Pos()), name, fd.Name.Name))
+	}
 	return found
 }
 
@@ -376,7 +422,7 @@ func exprText(e ast.Expr) string {
 	return ""
 }
 
-func assignedStringCall(fd *ast.FuncDecl, target string, env map[string]ast.Expr) (string, int, bool) {
+func assignedStringCall(fd *ast.FuncDecl, target string, env *env) (string, int, bool) {
 	var s string
 	base := 10
 	ok := false
@@ -407,6 +453,52 @@ func assignedStringCall(fd *ast.FuncDecl, target string, env map[string]ast.Expr
 	return s, base, ok
 }
 
+// isNewBigIntMethod: the call is new(big.Int).<method>(...)
+func isNewBigIntMethod(call *ast.CallExpr, method string) bool {
+	sel, ok := call.Fun.(*ast.SelectorExpr)
+	if !ok || sel.Sel.Name != method {
+		return false
+	}
+	nw, ok := sel.X.(*ast.CallExpr)
+	if !ok || len(nw.Args) != 1 || exprText(nw.Fun) != "new" || exprText(nw.Args[0]) != "big.Int" {
+		return false
+	}
+	id := nw.Fun.(*ast.Ident)
+	return id.Obj == nil
+}
+
+// bigImported: in the file that declares `name`, the identifier big denotes math/big
+// and new is the builtin.
+func bigImported(pi *pkgInfo, name string) {
+	if pi.specs[name] == nil {
+		must(fmt.Errorf("%s: %s not found", pi.dir, name))
+	}
+	if pi.declared["big"] || pi.declared["new"] {
+		must(fmt.Errorf("%s: big or new is redeclared at package level", pi.dir))
+	}
+	for _, f := range pi.files {
+		if f.Pos() <= pi.specs[name].Pos() && pi.specs[name].Pos() < f.End() {
+			ok := false
+			for _, im := range f.Imports {
+				path := strings.Trim(im.Path.Value, "\"`")
+				local := path[strings.LastIndex(path, "/")+1:]
+				if im.Name != nil {
+					local = im.Name.Name
+				}
+				if local == "big" && path != "math/big" {
+					must(fmt.Errorf("%s: big is not math/big", fset.Position(im.Pos())))
+				}
+				if local == "big" && path == "math/big" {
+					ok = true
+				}
+			}
+			if !ok {
+				must(fmt.Errorf("%s: math/big is not imported as big in the file declaring %s", pi.dir, name))
+			}
+		}
+	}
+}
+
 func bigFromString(s string, base int, what string) *big.Int {
 	v, ok := new(big.Int).SetString(s, base)
 	if !ok {
@@ -417,7 +509,8 @@ func bigFromString(s string, base int, what string) *big.Int {
 
 func genPoseidon() {
 	pi := loadPkg("poseidon")
-	cs := pi.vars["cs"]
+	pi.pinned("init/tables") // the conversion cs -> c (base 16, index for index) is assumed by the model
+	cs := pi.get("cs")
 	if cs == nil {
 		must(fmt.Errorf("poseidon: var cs not found"))
 	}
@@ -426,14 +519,14 @@ func genPoseidon() {
 		if e == nil {
 			must(fmt.Errorf("poseidon: cs.%s not found", f))
 		}
-		return buildTree(e, 16, pi.vars)
+		return buildTree(e, 16, pi.env())
 	}
 	C, S, M, P := get("C"), get("S"), get("M"), get("P")
-	rf, ok := evalInt(pi.vars["NROUNDSF"], pi.vars)
+	rf, ok := evalInt(pi.get("NROUNDSF"), pi.env())
 	if !ok {
 		must(fmt.Errorf("poseidon: NROUNDSF"))
 	}
-	rp := buildTree(pi.vars["NROUNDSP"], 10, pi.vars)
+	rp := buildTree(pi.get("NROUNDSP"), 10, pi.env())
 	n := len(C.kids)
 	meta := []def{
 		{"NROUNDSF", "nat", leafTree(rf)},
@@ -476,15 +569,16 @@ func genPoseidon() {
 
 func genGold() {
 	pi := loadPkg("goldenposeidon")
+	pi.pinned("init/tables") // C, S, M (circulant + diagonal), P as the model builds them
 	need := func(n string) ast.Expr {
-		e := pi.vars[n]
+		e := pi.get(n)
 		if e == nil {
 			must(fmt.Errorf("goldenposeidon: %s not found", n))
 		}
 		return e
 	}
 	iv := func(n string) *tree {
-		v, ok := evalInt(need(n), pi.vars)
+		v, ok := evalInt(need(n), pi.env())
 		if !ok {
 			must(fmt.Errorf("goldenposeidon: %s not constant", n))
 		}
@@ -495,11 +589,11 @@ func genGold() {
 		{"NROUNDSP", "nat", iv("NROUNDSP")},
 		{"CAPLEN", "nat", iv("CAPLEN")},
 		{"mLen", "nat", iv("mLen")},
-		{"mcirc", "list Z", buildTree(need("mcirc"), 10, pi.vars)},
-		{"mdiag", "list Z", buildTree(need("mdiag"), 10, pi.vars)},
-		{"c", "list Z", buildTree(need("c"), 10, pi.vars)},
-		{"s", "list Z", buildTree(need("s"), 10, pi.vars)},
-		{"p", "list (list Z)", buildTree(need("p"), 10, pi.vars)},
+		{"mcirc", "list Z", buildTree(need("mcirc"), 10, pi.env())},
+		{"mdiag", "list Z", buildTree(need("mdiag"), 10, pi.env())},
+		{"c", "list Z", buildTree(need("c"), 10, pi.env())},
+		{"s", "list Z", buildTree(need("s"), 10, pi.env())},
+		{"p", "list (list Z)", buildTree(need("p"), 10, pi.env())},
 	}
 	emit("GoldTables.v", "gold_tables.txt", defs)
 }
@@ -511,47 +605,50 @@ func genField(dir, vfile, txt string) {
 		if e == nil {
 			must(fmt.Errorf("%s: %s not found", dir, name))
 		}
-		defs = append(defs, def{name, "list Z", buildTree(e, 10, pi.vars)})
+		defs = append(defs, def{name, "list Z", buildTree(e, 10, pi.env())})
 	}
-	arr("qElement", pi.vars["qElement"])
-	arr("rSquare", pi.vars["rSquare"])
-	// modulus string: _modulus.SetString("...", 10) inside an init
-	var modStr string
-	for name, fd := range pi.funcs {
-		if !strings.HasPrefix(name, "init#") {
-			continue
+	arr("qElement", pi.get("qElement"))
+	arr("rSquare", pi.get("rSquare"))
+	// Legendre / sqrt exponents: the pinned init (shape fixed, literals read here)
+	exps := pi.pinned("init/exponents")
+	for _, t := range []struct{ target, name, what string }{
+		{"_bLegendreExponentElement", "legendreExp", "legendre exponent"},
+		{"_bSqrtExponentElement", "sqrtExp", "sqrt exponent"}} {
+		s, b, ok := assignedStringCall(exps, t.target, localEnv(exps, pi))
+		if !ok {
+			must(fmt.Errorf("%s: assignment to %s not found in the pinned init", dir, t.target))
 		}
-		ast.Inspect(fd.Body, func(n ast.Node) bool {
-			if call, ok := n.(*ast.CallExpr); ok {
-				if exprText(call.Fun) == "_modulus.SetString" && len(call.Args) >= 1 {
-					if s, ok := evalString(call.Args[0], pi.vars); ok {
-						modStr = s
-					}
-				}
+		defs = append(defs, def{t.name, "Z", leafTree(bigFromString(s, b, t.what))})
+	}
+	// modulus: _modulus.SetString("...", base) in the pinned init; string AND base are read
+	modStr, modBase, nmod := "", 0, 0
+	ast.Inspect(pi.pinned("init/modulus").Body, func(n ast.Node) bool {
+		if call, ok := n.(*ast.CallExpr); ok && exprText(call.Fun) == "_modulus.SetString" && len(call.Args) == 2 {
+			s, ok1 := evalString(call.Args[0], pi.env())
+			b, ok2 := evalInt(call.Args[1], pi.env())
+			if !ok1 || !ok2 {
+				must(fmt.Errorf("%s: arguments of _modulus.SetString", fset.Position(call.Pos())))
 			}
-			return true
-		})
-		// Legendre / sqrt exponents
-		if s, b, ok := assignedStringCall(fd, "_bLegendreExponentElement", localEnv(fd, pi.vars)); ok {
-			defs = append(defs, def{"legendreExp", "Z", leafTree(bigFromString(s, b, "legendre exponent"))})
+			modStr, modBase = s, int(b.Int64())
+			nmod++
 		}
-		if s, b, ok := assignedStringCall(fd, "_bSqrtExponentElement", localEnv(fd, pi.vars)); ok {
-			defs = append(defs, def{"sqrtExp", "Z", leafTree(bigFromString(s, b, "sqrt exponent"))})
-		}
+		return true
+	})
+	if nmod != 1 {
+		must(fmt.Errorf("%s: expected exactly one _modulus.SetString(string, base) in the pinned init, found %d", dir, nmod))
 	}
-	if modStr == "" {
-		must(fmt.Errorf("%s: modulus string not found", dir))
-	}
-	defs = append(defs, def{"modulus", "Z", leafTree(bigFromString(modStr, 10, "modulus"))})
-	// Sqrt: g and r
+	defs = append(defs, def{"modulus", "Z", leafTree(bigFromString(modStr, modBase, "modulus"))})
+	// Sqrt: the initial values of g and r (each defined exactly once in the function)
 	sq := pi.funcs["Element.Sqrt"]
 	if g := localComposite(sq, "g"); g != nil {
-		defs = append(defs, def{"sqrt_g", "list Z", buildTree(g, 10, pi.vars)})
+		defs = append(defs, def{"sqrt_g", "list Z", buildTree(g, 10, localEnv(sq, pi))})
 	}
 	if r := localComposite(sq, "r"); r != nil {
-		if v, ok := evalInt(r, pi.vars); ok {
-			defs = append(defs, def{"sqrt_r", "Z", leafTree(v)})
+		v, ok := evalInt(r, localEnv(sq, pi))
+		if !ok {
+			must(fmt.Errorf("%s: initial value of r in Sqrt is not a constant expression", fset.Position(r.Pos())))
 		}
+		defs = append(defs, def{"sqrt_r", "Z", leafTree(v)})
 	}
 	// literal lists of the limb routines and friends
 	names := []string{"_mulGeneric", "_fromMontGeneric", "_addGeneric", "_doubleGeneric", "_subGeneric",
@@ -575,23 +672,53 @@ func genField(dir, vfile, txt string) {
 	emit(vfile, txt, defs)
 }
 
-// localEnv: package vars plus constants declared inside the function
-func localEnv(fd *ast.FuncDecl, pkg map[string]ast.Expr) map[string]ast.Expr {
-	env := map[string]ast.Expr{}
-	for k, v := range pkg {
-		env[k] = v
+// localEnv: the package constants plus the CONSTANTS declared inside the
+// function; every other local name (variables, parameters) is known as a
+// non-constant so that a reference to it is rejected.
+func localEnv(fd *ast.FuncDecl, pi *pkgInfo) *env {
+	en := pi.env()
+	if fd == nil || fd.Body == nil {
+		return en
 	}
-	ast.Inspect(fd.Body, func(n ast.Node) bool {
-		if vs, ok := n.(*ast.ValueSpec); ok {
-			for i, nm := range vs.Names {
-				if i < len(vs.Values) {
-					env[nm.Name] = vs.Values[i]
+	seen := map[string]bool{}
+	ast.Inspect(fd, func(n ast.Node) bool {
+		switch t := n.(type) {
+		case *ast.GenDecl:
+			for _, sp := range t.Specs {
+				vs, ok := sp.(*ast.ValueSpec)
+				if !ok {
+					continue
 				}
+				for i, nm := range vs.Names {
+					if seen[nm.Name] {
+						must(fmt.Errorf("%s: local %s declared twice in %s", fset.Position(nm.Pos()), nm.Name, fd.Name.Name))
+					}
+					seen[nm.Name] = true
+					delete(en.consts, nm.Name)
+					en.declared[nm.Name] = true
+					if t.Tok == token.CONST && i < len(vs.Values) {
+						en.consts[nm.Name] = vs.Values[i]
+					}
+				}
+			}
+		case *ast.AssignStmt:
+			if t.Tok == token.DEFINE {
+				for _, l := range t.Lhs {
+					if id, ok := l.(*ast.Ident); ok && id.Name != "_" {
+						delete(en.consts, id.Name)
+						en.declared[id.Name] = true
+					}
+				}
+			}
+		case *ast.Field:
+			for _, nm := range t.Names {
+				delete(en.consts, nm.Name)
+				en.declared[nm.Name] = true
 			}
 		}
 		return true
 	})
-	return env
+	return en
 }
 
 func genCurve() {
@@ -599,63 +726,37 @@ func genCurve() {
 	co := loadPkg("constants")
 	mi := loadPkg("mimc7")
 	var defs []def
-	// var Q, _ = new(big.Int).SetString(<string expression>, <base>): the string may be a named
-	// constant (qString), a literal or a concatenation; what counts is the initialiser of Q
-	qbase := 10
-	qs, ok := "", false
-	if call, isCall := co.vars["Q"].(*ast.CallExpr); isCall && len(call.Args) >= 1 {
-		qs, ok = evalString(call.Args[0], co.vars)
-		if len(call.Args) >= 2 {
-			if b, ok3 := evalInt(call.Args[1], co.vars); ok3 {
-				qbase = int(b.Int64())
-			}
-		}
+	// var Q, _ = new(big.Int).SetString(<constant string expression>, <base>): exactly this call;
+	// string and base are read from the initialiser of Q (no fallback to qString)
+	bigImported(co, "Q")
+	qcall, isCall := co.get("Q").(*ast.CallExpr)
+	if !isCall || len(qcall.Args) != 2 || !isNewBigIntMethod(qcall, "SetString") || len(co.specs["Q"].Names) != 2 || co.specs["Q"].Names[0].Name != "Q" {
+		must(fmt.Errorf("constants: the initialiser of Q is not `var Q, _ = new(big.Int).SetString(<string>, <base>)`"))
 	}
-	if !ok {
-		qs, ok = evalString(co.vars["qString"], co.vars)
+	qs, ok1 := evalString(qcall.Args[0], co.env())
+	qb, ok2 := evalInt(qcall.Args[1], co.env())
+	if !ok1 || !ok2 {
+		must(fmt.Errorf("constants: arguments of the initialiser of Q are not constant expressions"))
 	}
-	if !ok {
-		must(fmt.Errorf("constants: initialiser of Q"))
-	}
-	defs = append(defs, def{"Q", "Z", leafTree(bigFromString(qs, qbase, "Q"))})
+	defs = append(defs, def{"Q", "Z", leafTree(bigFromString(qs, int(qb.Int64()), "Q"))})
 	for _, nm := range []string{"Zero", "One", "MinusOne"} {
-		call, ok := co.vars[nm].(*ast.CallExpr)
-		if !ok || len(call.Args) != 1 {
-			must(fmt.Errorf("constants: %s", nm))
+		bigImported(co, nm)
+		call, ok := co.get(nm).(*ast.CallExpr)
+		if !ok || len(call.Args) != 1 || exprText(call.Fun) != "big.NewInt" || len(co.specs[nm].Names) != 1 {
+			must(fmt.Errorf("constants: the initialiser of %s is not big.NewInt(<integer>)", nm))
 		}
-		v, ok := evalInt(call.Args[0], co.vars)
+		v, ok := evalInt(call.Args[0], co.env())
 		if !ok {
 			must(fmt.Errorf("constants: %s value", nm))
 		}
 		defs = append(defs, def{nm, "Z", leafTree(v)})
 	}
-	var initFd *ast.FuncDecl
-	for name, fd := range bj.funcs {
-		if strings.HasPrefix(name, "init#") {
-			initFd = fd
-		}
-	}
+	// babyjub: init() interpreted statement by statement (curve.go)
+	ci := interpCurveInit(bj)
 	for _, t := range []struct{ target, name string }{{"A", "A"}, {"D", "D"}, {"Order", "Order"}, {"B8.X", "B8x"}, {"B8.Y", "B8y"}} {
-		s, b, ok := assignedStringCall(initFd, t.target, bj.vars)
-		if !ok {
-			must(fmt.Errorf("babyjub: init assignment to %s not found", t.target))
-		}
-		defs = append(defs, def{t.name, "Z", leafTree(bigFromString(s, b, t.target))})
+		defs = append(defs, def{t.name, "Z", leafTree(ci.vals[t.target])})
 	}
-	// SubOrder = new(big.Int).Rsh(Order, k)
-	shift := big.NewInt(-1)
-	ast.Inspect(initFd.Body, func(n ast.Node) bool {
-		if as, ok := n.(*ast.AssignStmt); ok && len(as.Lhs) == 1 && exprText(as.Lhs[0]) == "SubOrder" {
-			if call, ok := as.Rhs[0].(*ast.CallExpr); ok && len(call.Args) == 2 {
-				if sel, ok := call.Fun.(*ast.SelectorExpr); ok && sel.Sel.Name == "Rsh" && exprText(call.Args[0]) == "Order" {
-					if v, ok := evalInt(call.Args[1], bj.vars); ok {
-						shift = v
-					}
-				}
-			}
-		}
-		return true
-	})
+	shift := ci.shift
 	defs = append(defs, def{"SubOrderShift", "Z", leafTree(shift)})
 	defs = append(defs, def{"lits_pruneBuffer", "list Z", listTree(funcLits(bj.funcs["pruneBuffer"]))})
 	defs = append(defs, def{"lits_SkToBigInt", "list Z", listTree(funcLits(bj.funcs["SkToBigInt"]))})
@@ -663,7 +764,10 @@ func genCurve() {
 	defs = append(defs, def{"lits_UnpackSignY", "list Z", listTree(funcLits(bj.funcs["UnpackSignY"]))})
 	defs = append(defs, def{"lits_PointCoordSign", "list Z", listTree(funcLits(bj.funcs["PointCoordSign"]))})
 	// mimc7
-	seed, ok := evalString(mi.vars["SEED"], mi.vars)
+	if !mi.consts["SEED"] {
+		must(fmt.Errorf("mimc7: SEED is not a constant"))
+	}
+	seed, ok := evalString(mi.get("SEED"), mi.env())
 	if !ok {
 		must(fmt.Errorf("mimc7: SEED"))
 	}
@@ -682,10 +786,17 @@ func main() {
 		fmt.Fprintln(os.Stderr, "usage: constgen <repo> <verif-dir>")
 		os.Exit(2)
 	}
+	if os.Args[1] == "-pins" {
+		repo = os.Args[2]
+		printPins()
+		return
+	}
 	repo, out = os.Args[1], os.Args[2]
+	scanAll()
 	genPoseidon()
 	genGold()
 	genField("ff", "FfConsts.v", "ff_consts.txt")
 	genField("ffg", "FfgConsts.v", "ffg_consts.txt")
 	genCurve()
+	flush()
 }
